@@ -102,9 +102,8 @@ Deferred(c, cfg) ==
   IF ~p.deferred THEN c
   ELSE IF p.lost = <<>> /\ ~p.mdMissing THEN
        LET v == VerifyD(c, cfg) IN
-       IF v.c.exc # "none" THEN v.c
-       ELSE [v.c EXCEPT !.h.step = IF v.c.h.state = "IDLE" THEN "TRANSFER_COMPLETION" ELSE "TRANSFER_COMPLETION",
-                        !.h.p.deferred = FALSE]
+       IF v.c.exc # "none" \/ v.c.h.state = "IDLE" THEN v.c     \* (abandoned by the fault handler inside the verification)
+       ELSE [v.c EXCEPT !.h.step = "TRANSFER_COMPLETION", !.h.p.deferred = FALSE]
   ELSE LET first == ~p.nakT.armed
            c1 == IF first THEN [c EXCEPT !.h.p.nakT = [armed |-> TRUE, start |-> c.now]] ELSE c IN
        IF ~first /\ ~ExpiredD(p.nakT, c.now, cfg.nakInt) THEN c
@@ -127,7 +126,7 @@ AdvanceD(c, cfg) ==
      IF (c.h.p.lost # <<>> \/ c.h.p.mdMissing) /\ c.h.p.disp # "CANCELED" THEN StartDeferred(c, cfg)
      ELSE LET c1 == IF c.h.p.disp # "CANCELED" THEN VerifyD(c, cfg).c ELSE c IN
           IF c1.exc # "none" THEN c1
-          ELSE IF c1.h.state = "IDLE" THEN [c1 EXCEPT !.h.step = "TRANSFER_COMPLETION"]  \* abandoned inside verify: step assignment still happens
+          ELSE IF c1.h.state = "IDLE" THEN c1     \* abandoned by the fault handler inside the verification
           ELSE StepD(c1, "TRANSFER_COMPLETION")
   ELSE c
 
@@ -251,6 +250,7 @@ CheckLimit(c, cfg) ==
      LET v == VerifyD(c, cfg) IN
      IF v.c.exc # "none" THEN v.c
      ELSE IF v.ok THEN CompleteTransition(v.c)
+     ELSE IF v.c.h.state = "IDLE" THEN v.c                  \* abandoned by the fault handler
      ELSE IF v.c.h.p.chkCnt + 1 >= cfg.chkLim THEN DeclareFaultD(v.c, cfg, "CHECK_LIMIT_REACHED")
      ELSE [v.c EXCEPT !.h.p.chkCnt = @ + 1, !.h.p.chkT.start = c.now]
   ELSE c
@@ -289,7 +289,7 @@ PositiveAckD(c, cfg) ==
                   \* "return self.state_machine()": the completion is re-run in the same call
                   (IF cf.depth > 3 THEN ExcD(cf, "RecursionError")
                    ELSE NonIdleD([cf EXCEPT !.depth = @ + 1], cfg, [t |-> "none"]))
-             ELSE IF cf.h.state = "IDLE" THEN ExcD(cf, "AttributeError")   \* abandoned: timer of the fresh block is None
+             ELSE IF cf.h.state = "IDLE" THEN cf                            \* abandoned by the fault handler
              ELSE PrepareFinished([cf EXCEPT !.h.p.ackT.start = c.now, !.h.p.ackCnt = @ + 1])
      ELSE PrepareFinished([c EXCEPT !.h.p.ackT.start = c.now, !.h.p.ackCnt = @ + 1])
   ELSE c
